@@ -26,6 +26,7 @@ class Harness:
         self.props = [p for p in tags.get('props', '').split(',') if p]
         self.twin = tags.get('twin')
         self.timeout = int(tags.get('timeout', '900'))
+        self.mem_gb = int(tags.get('mem', '12'))
         self.known = tags.get('known')
         self.fn = tags.get('fn', '')                   # repo function(s) the harness puts under contract
         self.expect = tags.get('expect', 'pass')       # pass | fail (canaries)
@@ -140,6 +141,9 @@ def run_harnesses(ku, harnesses, jobs=8, playback=False, extra_flags=()):
     running = []
     while pending or running:
         while pending and len(running) < jobs:
+            used = sum(x[0].mem_gb for x in running)
+            if running and used + pending[0].mem_gb > 52:
+                break   # memory budget of the sandbox (62 GB): wait for a running harness to finish
             h = pending.pop(0)
             cmd = ['cargo', 'kani', '-Z', 'stubbing', '-Z', 'unstable-options', '--harness', 'proofs::' + h.name, '--exact']
             if playback:
@@ -148,7 +152,7 @@ def run_harnesses(ku, harnesses, jobs=8, playback=False, extra_flags=()):
                 cmd += ['--output-format', 'terse']
             cmd += list(extra_flags)
             out = open(os.path.join(ku.dir, f'{h.name}.log'), 'w')
-            shell = f"ulimit -v {12 * 1024 * 1024}; exec " + ' '.join(_q(c) for c in cmd)
+            shell = f"ulimit -v {h.mem_gb * 1024 * 1024}; exec " + ' '.join(_q(c) for c in cmd)
             p = subprocess.Popen(['bash', '-c', shell], cwd=ku.dir, env=env, stdout=out, stderr=subprocess.STDOUT,
                                  start_new_session=True)
             h._cmd = ' '.join(cmd)
